@@ -24,6 +24,11 @@ def h(x, y):            # "inpl": updates x in place
     np.add(x, y * 5 + 2, out=x)
 
 
+def z():               # "gen": a value that does not depend on the graph inputs
+    LOG.append("z")
+    return np.array([5, 6, 7, 8], dtype=np.int64)
+
+
 def apply(fn, arg):     # "lam": applies a nested function
     LOG.append("apply")
     return fn(arg)
